@@ -30,6 +30,8 @@ ASSUMPTIONS = [
     "arbitrary instructions or torn HDF5 writes",
     "a complete file already present before the failing run is not "
     "attributed to it (DESIGN D-e); every run writes to fresh locations",
+    "an injected exception that python itself swallows (raised inside a "
+    "destructor) leaves the worker's exit code 0 and is not judged",
 ]
 CASE_TIMEOUT = 1500
 MODES = ('kill', 'exit', 'raise')
@@ -77,6 +79,13 @@ def judge(stage, obs, err, sched, w, desc):
         return out
     failed_observed = any(e['ev'] == 'poll' and e['w'] == w
                           and e.get('finished') for e in sched.events)
+    codes = [e.get('code') for e in sched.events
+             if e['ev'] == 'poll' and e['w'] == w and e.get('finished')]
+    if codes and codes[-1] == 0:
+        # the injected exception did not terminate the worker (python
+        # ignores exceptions raised inside destructors / callbacks): the
+        # worker finished normally, so the statement does not apply
+        return out
     msgs = stage.failure_findings(obs)
     if not failed_observed and obs.get('error') is None:
         msgs.append(f'worker {w} was never waited for')
